@@ -155,7 +155,20 @@ fn oracle_ok(ctx: &mut Ctx, input: &str, c: &AisleConf) {
             format!("rt {} {}", enc_text(&text), again.split(':').next().unwrap())
         }
     };
-    ctx.case(format!("aisle_rt{} {}", sfx(), enc_text(input)), rt_reply, !c.categories.is_empty(), desc.clone());
+    ctx.case(format!("aisle_rt{} {}", sfx(), enc_text(input)), rt_reply.clone(), !c.categories.is_empty(), desc.clone());
+
+    // the byte level of the round trip (model: Side/AisleUtf8.lean, theorem C11_roundtrip_bytes): the bytes `write` put into a
+    // Vec against `utf8Encode` of the written text, and `str::from_utf8` of those bytes against `utf8Decode`
+    if sfx().is_empty() && rt_reply.starts_with("rt ") {
+        let mut buf = Vec::new();
+        let _ = aisle::write(c, &mut buf);
+        if !buf.is_ascii() || crate::util::hash64(input) % 8 == 0 {
+            if let Ok(text) = std::str::from_utf8(&buf) {
+                ctx.case(format!("utf8_enc {}", enc_text(text)), enc_bytes(&buf), !buf.is_ascii(), format!("{desc}: bytes written by aisle::write"));
+            }
+            ctx.case(format!("utf8_dec {}", enc_bytes(&buf)), dec_reply(&buf), !buf.is_ascii(), format!("{desc}: from_utf8 of the bytes written by aisle::write"));
+        }
+    }
 
     // the calls `write` makes on its destination (model: Side/AisleSink.lean, theorem C11_write_sink): a destination that
     // accepts at most `n` bytes per call and `cap` bytes in all (a pipe, a socket, `&mut [u8]`) — what it holds afterwards
@@ -367,6 +380,68 @@ pub(crate) fn soup(rng: &mut Rng) -> String {
     (0..rng.below(40)).map(|_| *rng.pick(&extra)).collect()
 }
 
+
+fn enc_bytes(b: &[u8]) -> String { if b.is_empty() { "-".into() } else { b.iter().map(|x| x.to_string()).collect::<Vec<_>>().join(",") } }
+fn dec_reply(b: &[u8]) -> String { match std::str::from_utf8(b) { Ok(t) => format!("ok {}", enc_text(t)), Err(_) => "err".into() } }
+
+/// `utf8Encode` / `utf8Decode` (Side/AisleUtf8.lean) against `str::as_bytes` / `std::str::from_utf8`
+fn utf8_family(ctx: &mut Ctx) {
+    let enc = |ctx: &mut Ctx, t: &str, what: &str| {
+        ctx.count("utf8:enc");
+        ctx.case(format!("utf8_enc {}", enc_text(t)), enc_bytes(t.as_bytes()), !t.is_ascii(), format!("{what}: as_bytes of {:?}", t.chars().take(12).collect::<String>()));
+        ctx.count("utf8:dec-valid");
+        ctx.case(format!("utf8_dec {}", enc_bytes(t.as_bytes())), dec_reply(t.as_bytes()), !t.is_ascii(), format!("{what}: from_utf8 of the bytes of {:?}", t.chars().take(12).collect::<String>()));
+    };
+    let dec = |ctx: &mut Ctx, b: &[u8], what: &str| {
+        let r = dec_reply(b);
+        ctx.count(if r == "err" { "utf8:dec-rejected" } else { "utf8:dec-accepted" });
+        ctx.case(format!("utf8_dec {}", enc_bytes(b)), r, b.iter().any(|x| *x >= 0x80), format!("{what}: from_utf8 of {:02X?}", b));
+    };
+    // boundary scalar values one at a time and together
+    let bounds: [u32; 20] = [0, 1, 0x7E, 0x7F, 0x80, 0x81, 0x7FE, 0x7FF, 0x800, 0x801, 0xD7FF, 0xE000, 0xFFFD, 0xFFFE, 0xFFFF, 0x10000, 0x10001, 0x3FFFF, 0x40000, 0x10FFFF];
+    for b in bounds { let c = char::from_u32(b).unwrap(); enc(ctx, &c.to_string(), "boundary value"); enc(ctx, &format!("a{c}b"), "boundary value between ASCII"); }
+    let all: String = bounds.iter().map(|b| char::from_u32(*b).unwrap()).collect();
+    enc(ctx, &all, "all boundary values");
+    enc(ctx, "", "empty text");
+    // EVERY scalar value, 2048 per text
+    let mut chunk = String::new();
+    let mut k = 0;
+    for n in 0..=0x10FFFFu32 {
+        if let Some(c) = char::from_u32(n) { chunk.push(c); k += 1; }
+        if k == 2048 || n == 0x10FFFF { enc(ctx, &chunk, "all scalar values"); ctx.count("utf8:all-scalars-chunk"); chunk.clear(); k = 0; }
+    }
+    // decoder: EVERY byte string of length 1 and 2
+    for a in 0..=255u8 { dec(ctx, &[a], "every 1-byte string"); for b in 0..=255u8 { dec(ctx, &[a, b], "every 2-byte string"); } }
+    // three-byte forms: every lead E0..EF (and the neighbours DF, F0) x every second byte x third byte around the continuation range
+    let edge = [0x00u8, 0x7F, 0x80, 0xA5, 0xBF, 0xC0, 0xFF];
+    for a in 0xDF..=0xF0u8 { for b in 0..=255u8 { for c in edge { dec(ctx, &[a, b, c], "3-byte forms"); } } }
+    // four-byte forms: leads EF..FF x every second byte x third, fourth around the continuation range; and truncated
+    let edge4 = [0x7Fu8, 0x80, 0xBF, 0xC0];
+    for a in 0xEF..=0xFFu8 { for b in 0..=255u8 { for c in edge4 { for d in edge4 { dec(ctx, &[a, b, c, d], "4-byte forms"); } } } }
+    for a in 0xF0..=0xF5u8 { for b in [0x7Fu8, 0x80, 0x8F, 0x90, 0xBF, 0xC0] { for c in edge4 { dec(ctx, &[a, b, c], "truncated 4-byte forms"); dec(ctx, &[a, b, c, b'a'], "4-byte form cut by ASCII"); } } }
+    // named malformed strings
+    for b in [&[0xC0u8, 0x80][..], &[0xC1, 0xBF], &[0xE0, 0x80, 0x80], &[0xE0, 0x9F, 0xBF], &[0xF0, 0x80, 0x80, 0x80], &[0xF0, 0x8F, 0xBF, 0xBF], &[0xED, 0xA0, 0x80], &[0xED, 0xBF, 0xBF],
+              &[0xF4, 0x90, 0x80, 0x80], &[0xF5, 0x80, 0x80, 0x80], &[0xF8, 0x88, 0x80, 0x80, 0x80], &[0x80], &[0xBF], &[0x61, 0x80, 0x62], &[0xC3], &[0xE2, 0x82], &[0xF0, 0x9F, 0x98],
+              &[0xC3, 0xA9, 0xA9], &[0xFE], &[0xFF], &[0xEF, 0xBB, 0xBF], &[0xED, 0x9F, 0xBF], &[0xEE, 0x80, 0x80], &[0xF4, 0x8F, 0xBF, 0xBF]] { dec(ctx, b, "named malformed / boundary string"); }
+    // random: encodings of random texts, damaged (truncated, a byte dropped / replaced / inserted), and byte soups weighted to lead and continuation bytes
+    let mut rng = Rng::new(ctx.seed ^ 0xC11_08F8);
+    let n = if ctx.thorough { 200_000 } else { 20_000 };
+    let pool: Vec<char> = bounds.iter().filter_map(|b| char::from_u32(*b)).chain("[]|/ab \n\r\té日€😀\u{A0}\u{2028}\u{FEFF}".chars()).collect();
+    for i in 0..n {
+        let t: String = (0..rng.below(9)).map(|_| if rng.chance(1, 4) { loop { if let Some(c) = char::from_u32(rng.below(0x110000) as u32) { break c; } } } else { *rng.pick(&pool) }).collect();
+        let mut b = t.as_bytes().to_vec();
+        match i % 6 {
+            0 => { enc(ctx, &t, "random text"); continue; }
+            1 => { let k = rng.below(b.len() + 1); b.truncate(k); }
+            2 => { if !b.is_empty() { let k = rng.below(b.len()); b.remove(k); } }
+            3 => { if !b.is_empty() { let k = rng.below(b.len()); b[k] = *rng.pick(&[0x80u8, 0xBF, 0xC0, 0xC1, 0xC2, 0xE0, 0xED, 0xF0, 0xF4, 0xF5, 0xFF, 0x41, 0xA0, 0x9F, 0x90, 0x8F]); } }
+            4 => { let k = rng.below(b.len() + 1); b.insert(k, *rng.pick(&[0x80u8, 0xBF, 0xC2, 0xE0, 0xED, 0xF0, 0xF4, 0xA0, 0x9F, 0x90, 0x8F])); }
+            _ => { b = (0..rng.below(7)).map(|_| if rng.chance(1, 3) { rng.below(256) as u8 } else { *rng.pick(&[0x80u8, 0x8F, 0x90, 0x9F, 0xA0, 0xBF, 0xC2, 0xDF, 0xE0, 0xE1, 0xEC, 0xED, 0xEE, 0xEF, 0xF0, 0xF1, 0xF3, 0xF4, 0x61]) }).collect(); }
+        }
+        dec(ctx, &b, "damaged encoding / byte soup");
+    }
+}
+
 pub fn run(ctx: &mut Ctx) {
     let maxlen = if ctx.thorough { 6 } else { 5 };
     ctx.rule = format!("(1) the files of corpus/C11; (2) EVERY string of length 0..={maxlen} over the 13 symbols [ ] | / a b space \\n \\r \\t U+000B U+00A0 é \
@@ -374,12 +449,18 @@ and every such string of length 0..={} after the header line `[a]` (both exhaust
 every token, comments, CRLF, empty synonyms, duplicate names and categories, orphan lines, `|` in category names, missing final newline), 1-3 character \
 mutations of them, and symbol soups up to 40 characters. Per input: parse compared with the model, on success write+re-parse and lookups of every name \
 (+absent probes) compared and checked by the oracle. non-trivial = a configuration with at least one category or an error; distinct = distinct request lines. \
-`exhaustive` refers to part (2).", maxlen - 1);
+`exhaustive` refers to part (2). \
+(0) the byte level: `utf8_enc` / `utf8_dec` of the model against `str::as_bytes` / `str::from_utf8` on every scalar value (2048 per text), the boundary values \
+7F/80/7FF/800/D7FF/E000/FFFF/10000/10FFFF, EVERY byte string of length 1 and 2, the 3- and 4-byte forms with every second byte and third/fourth bytes around 80..BF, \
+truncated / overlong / surrogate / above-10FFFF / stray-continuation strings, damaged encodings of random texts, byte soups, and the bytes `aisle::write` produced for the parsed files.", maxlen - 1);
     ctx.exhaustive = true;
 
     // char classes of std against the model's explicit tables
     ctx.case("ws_table".into(), ranges(char::is_whitespace), true, "char::is_whitespace over all scalar values".into());
     ctx.case("ascii_ws_table".into(), ranges(|c| c.is_ascii() && (c as u8).is_ascii_whitespace()), true, "u8::is_ascii_whitespace over all scalar values".into());
+
+    // the byte level: the hand-written UTF-8 encoder / decoder of the model against std
+    if sfx().is_empty() { utf8_family(ctx); ctx.flush(); }
 
     // (1) corpus first
     if let Ok(rd) = std::fs::read_dir("corpus/C11") {
